@@ -113,7 +113,7 @@ PROPS = {
                                         ("C2", 600, {"race": True, "configs": ["default"]})],
                 configs_quick=Q4, configs_thorough=T4,
                 theorems={"Voi.Props.LRUInv": LRU_THMS, "Voi.Props.LinearizeSound": LIN_THMS}),
-    "C17": dict(level="proof", streams=[("R1", 8000)], configs_quick=["default", "force32bit"], configs_thorough=T4, theorems={"Voi.Props.C17": C17_THMS}),
+    "C17": dict(level="proof", streams=[("R1", 8000), ("G1", 600)], configs_quick=["default", "force32bit"], configs_thorough=T4, theorems={"Voi.Props.C17": C17_THMS}),
 }
 PROPS["C19"] = dict(level="proof", streams=[("P1", 26000), ("M1", 2000),
                                                 # the per-protocol streams carry their own malformed/boundary inputs (a panic is a reply the model never gives)
